@@ -558,6 +558,93 @@ def rule_cover_quantile(ctx, m):
     ctx.count('cover_quantile derivations examined (informational)', n)
 
 
+def rule_squash_derived_sign(ctx, m):
+    """squash is non-decreasing only for a positive slope r.  The slope derived from cover_quantile=(q, target) is a closed-form expression of the q-quantile
+    xq, the midpoint x0 and the target t; under a consistent calibration (the quantile lies on the side of the midpoint that the target lies on of the
+    transform's midpoint value: above/above or below/below) it must be positive.  The extracted expression is evaluated on a grid of such calibrations
+    (sign analysis of a closed form, 2 x 12 points); a non-positive value is a violation with the point as witness."""
+    from ..symexec import Exec, Env
+    pm = m.py('dtaidistance.similarity')
+    f = pm.funcs.get('squash')
+    if f is None:
+        raise AnalysisError('anchor vanished: similarity.squash')
+
+    def ev(e, val):
+        k = e[0]
+        if k == 'cond':
+            return ev(e[2], val) if ev(e[1], val) else ev(e[3], val)
+        if k in ('bool',):
+            return e[1]
+        if k == 'none':
+            return None
+        if k == 'un' and e[1] == 'not':
+            return not ev(e[2], val)
+        if k == 'bin' and e[1] in ('is', 'isnot', '==', '!='):
+            a, b = ev(e[2], val), ev(e[3], val)
+            same_ = (a is b) or (type(a) is type(b) and a == b)
+            return same_ if e[1] in ('is', '==') else not same_
+        if k == 'call':
+            d = (dotted(e[1]) or '').split('.')[-1]
+            if d == 'quantile':
+                return val['XQ']
+            if d == 'mean':
+                return val['M']
+            if d == 'log' and len(e[2]) == 1:
+                return math.log(ev(e[2][0], val))
+        if k == 'bin':
+            a, b = ev(e[2], val), ev(e[3], val)
+            return {'+': lambda: a + b, '-': lambda: a - b, '*': lambda: a * b, '/': lambda: a / b, '**': lambda: a ** b}[e[1]]()
+        if k == 'un' and e[1] == 'neg':
+            return -ev(e[2], val)
+        return _ev(e, val)
+    n = 0
+    for name, body in sorted(_chain(f, 'method').items()):
+        if name == 'gaussian':
+            continue                    # only r**2 enters the transform
+        ex = Exec()
+        env = ex.run(body, Env({'r': ('none',), 'base': ('none',), 'x0': ('none',) if name == 'logistic' else ('var', 'x0')}))
+        rexp = (env or {}).get('r')
+        if rexp is None or not any(x[0] == 'call' and (dotted(x[1]) or '').endswith('quantile') for x in walk_expr(rexp)):
+            ctx.undecided('R-MON', 'squash[%s] derived slope' % name, 'no quantile-derived slope found')
+            continue
+        n += 1
+        # midpoint value of the transform: logistic 1/2 at x0; exponential 0 at x0 (every quantile above x0 = 0 maps above it)
+        pts = []
+        for i in range(12):
+            d_ = 0.25 + 0.5 * i
+            tt = 0.55 + 0.035 * i
+            if name == 'logistic':
+                pts.append({'XQ': 3.0 + d_, 'M': 3.0, 't': tt})
+                pts.append({'XQ': 3.0 - d_ / 3, 'M': 3.0, 't': 1 - tt})
+            else:
+                pts.append({'XQ': d_, 'M': 0.0, 't': tt})
+                pts.append({'XQ': d_, 'M': 0.0, 't': 1 - tt})
+        bad = None
+        err = None
+        for pt in pts:
+            val = {'cover_quantile': pt['t'], 'cover_quantile_target': pt['t'], 'XQ': pt['XQ'], 'M': pt['M'], 'x0': 0.0, 'X': pt['XQ']}
+            try:
+                rv = ev(rexp, val)
+            except Exception as exn:  # noqa
+                err = str(exn)
+                break
+            if not (isinstance(rv, float) and rv > 0):
+                bad = (pt, rv)
+                break
+        inst = 'squash[%s] quantile-derived slope positive' % name
+        if err is not None:
+            ctx.undecided('R-MON', inst, 'cannot evaluate %s: %s' % (fmt(rexp)[:100], err))
+        elif bad is None:
+            ctx.held('R-MON', inst, 'r > 0 on %d consistent calibrations' % len(pts))
+        else:
+            ctx.violation('R-MON', pm.path, 'squash', 'derived slope %s' % name,
+                          'with cover_quantile the slope is r = %s; for a q-quantile of %s, midpoint %s and target %s it evaluates to %s, not positive: the %s squashing is then '
+                          'DEcreasing in X' % (fmt(rexp)[:160], bad[0]['XQ'], bad[0]['M'], bad[0]['t'], bad[1], name), f.line, facts={'witness': bad[0]})
+    ctx.count('quantile-derived slopes examined', n)
+    if n == 0:
+        raise AnalysisError('unrecognised shape: squash derives no slope from cover_quantile')
+
+
 def rule_default_scale(ctx, m):
     """The range / monotonicity verdicts of rule_similarity assume a data-derived default scale r with r >= max(D) (reverse) resp. r > 0
     (exponential, gaussian).  Here the default expressions themselves are checked, as linear terms over MIN = min(D) >= 0 and MAX = max(D) >= MIN."""
